@@ -513,6 +513,118 @@ def run_loaded(tag, order, present, seed, res):
     res.outcome(('loaded', tag, len(present)))
 
 
+# ---------------------------------------------------------------- two carts that must not share memory
+TWIN_MODES = ['loaded-sparse-lua-only', 'loaded-sparse-gfx-only', 'loaded-sparse-no-map', 'loaded-full', 'loaded-png',
+              'from_bytes-of-to_bytes', 'init-of-to_bytes', 'shared-caller-buffers-from_bytes', 'shared-caller-buffers-init',
+              'label-from-gfx']
+
+
+def _twin_pair(mode, seed):
+    """Returns (A, B, caller buffers or {}, reload function or None)."""
+    import io
+    from pico8.game.formatter.p8 import P8Formatter
+    from pico8.game.formatter.p8png import P8PNGFormatter
+    from pico8.game.game import Game
+    from pico8.gfx.gfx import Gfx
+    fills = initial_fills(2, seed)
+    fills['music'] = bytes((b & 0x7f) if i % 4 == 3 else b for i, b in enumerate(fills['music']))
+    if mode.startswith('loaded-'):
+        if mode == 'loaded-png':
+            mem = bytearray(0x8001)
+            for n, (lo, hi) in rc.REGION_ORDER:
+                mem[lo:hi] = fills[n]
+            mem[0x4300:0x4303] = b'x=1'
+            mem[0x8000] = 33
+            data = rc.png_encode_rgba(160, 205, rc.stego_pack(bytes(mem), 160, 205, [bytes(160 * 4)] * 205))
+
+            def load():
+                return P8PNGFormatter.from_file(io.BytesIO(data), filename='x.p8.png')
+        else:
+            present = {'loaded-sparse-lua-only': [], 'loaded-sparse-gfx-only': ['gfx'],
+                       'loaded-sparse-no-map': ['gfx', 'gff', 'sfx', 'music'], 'loaded-full': list(DATA_SECTIONS)}[mode]
+            text = p8_text(fills, list(DATA_SECTIONS), present)
+
+            def load():
+                return P8Formatter.from_file(io.BytesIO(text), filename='x.p8')
+        return load(), load(), {}, load
+    classes = {n: type(getattr(Game.make_empty_game(), n)) for n in REGIONS}
+
+    def construct(name, buf, how, gfx=None):
+        cls = classes[name]
+        if how == 'from_bytes':
+            return cls.from_bytes(buf, version=33, gfx=gfx) if name == 'map' else cls.from_bytes(buf, version=33)
+        return cls(data=buf, version=33, gfx=gfx) if name == 'map' else cls(data=buf, version=33)
+    a = carts.make_game({n: bytes(fills[n]) for n in REGIONS}, version=33)
+    b = Game.make_empty_game(version=33)
+    bufs = {}
+    if mode in ('from_bytes-of-to_bytes', 'init-of-to_bytes'):
+        how = mode.split('-')[0]
+        b.gfx = construct('gfx', a.gfx.to_bytes(), how)
+        for n in ('map', 'gff', 'music', 'sfx'):
+            setattr(b, n, construct(n, getattr(a, n).to_bytes(), how, gfx=b.gfx))
+    elif mode.startswith('shared-caller-buffers'):
+        how = mode.rsplit('-', 1)[1]
+        bufs = {n: bytearray(fills[n]) for n in REGIONS}
+        for g in (a, b):
+            g.gfx = construct('gfx', bufs['gfx'], how)
+            for n in ('map', 'gff', 'music', 'sfx'):
+                setattr(g, n, construct(n, bufs[n], how, gfx=g.gfx))
+    elif mode == 'label-from-gfx':
+        a.label = Gfx.from_bytes(a.gfx.to_bytes(), version=33)
+        b = None
+    return a, b, bufs, None
+
+
+def run_twins(mode, seed, res):
+    """Edits through the accessors of cart A only: cart B (loaded from the same file a second time / built from A's
+    to_bytes() / built from the same caller buffers), the caller's buffers, A's label and a cart loaded afterwards
+    must keep their bytes - 'every byte not addressed by an edit is unchanged' includes bytes of other objects."""
+    case = {'twins': mode}
+    try:
+        a, b, bufs, reload_fn = _twin_pair(mode, seed)
+    except Exception as e:
+        res.violation('C17|twins|setup-raise|%s|%s' % (type(e).__name__, mode), 'building the carts raised %r' % e, case)
+        return
+    b0 = carts.game_regions(b) if b is not None else None
+    bufs0 = {n: bytes(v) for n, v in bufs.items()}
+    label0 = bytes(a.label.to_bytes()) if getattr(a, 'label', None) is not None else None
+    fresh0 = carts.game_regions(reload_fn()) if reload_fn else None
+    mem = M.new_mem(carts.game_regions(a))
+    hist = []
+    for op in loaded_menu():
+        comp = next(c for c, (ops_fn, _) in COMPONENTS.items() if op in ops_fn())
+        r = ShardResult()
+        m2 = step(mem, op, r, hist, 0, COMPONENTS[comp][1], game=a)
+        res.evaluations += r.evaluations
+        res.transitions += r.transitions
+        for sig, v in r.violations.items():
+            res.violation('C17|twins|%s|%s' % (sig.split('|', 1)[1], mode), v[0] + ' [twin mode %s]' % mode,
+                          {'twins': mode, 'hist': hist + [list(op)]})
+        if m2 is None:
+            return
+        hist = hist + [list(op)]
+        mem = m2
+        what = None
+        if b is not None and carts.game_regions(b) != b0:
+            what = 'the other cart'
+        elif any(bytes(v) != bufs0[n] for n, v in bufs.items()):
+            what = 'the caller\'s buffer'
+        elif label0 is not None and bytes(a.label.to_bytes()) != label0:
+            what = 'the cart\'s label'
+        if what:
+            res.violation('C17|twins|other-object-changed|%s|%s' % (mode, op[0]),
+                          'edit %r on one cart changed %s (%s)' % (op, what, mode), {'twins': mode, 'hist': hist})
+            return
+        res.nontriv(('twins', mode, op))
+    if reload_fn:
+        again = carts.game_regions(reload_fn())
+        if again != fresh0:
+            res.violation('C17|twins|later-load-changed|%s' % mode,
+                          'after the edits on a loaded cart, loading the same file again gives other contents (%s)' % mode, case)
+            return
+    res.outcome(('twins', mode))
+
+
 def plan(tier):
     b = BOUNDS[tier]
     return {'gfxmap': b['gfxmap_depth'], 'gff': b['gff_depth'], 'sfx': b['sfx_depth'], 'music': b['music_depth']}
@@ -528,12 +640,18 @@ def shards(tier, seed):
                 items.append((tier, seed, comp, init, i, min(n, i + group)))
     lc = loaded_cases(tier)
     items += [('loaded', seed, lo, min(len(lc), lo + 12)) for lo in range(0, len(lc), 12)]
+    items += [('twins', seed, m) for m in TWIN_MODES]
     # heavy components first
-    items.sort(key=lambda it: 3 if it[0] == 'loaded' else {'gfxmap': 0, 'sfx': 1}.get(it[2], 2))
+    items.sort(key=lambda it: 3 if it[0] in ('loaded', 'twins') else {'gfxmap': 0, 'sfx': 1}.get(it[2], 2))
     return items
 
 
 def run_shard(item):
+    if item[0] == 'twins':
+        res = ShardResult()
+        run_twins(item[2], item[1], res)
+        res.sample({'family': 'twins', 'mode': item[2]})
+        return res
     if item[0] == 'loaded':
         res = ShardResult()
         for tag, order, present in loaded_cases('quick')[item[2]:item[3]]:
@@ -553,6 +671,9 @@ def run_shard(item):
 
 def replay(case):
     res = ShardResult()
+    if 'twins' in case:
+        run_twins(case['twins'], 0, res)
+        return [(s, v[0]) for s, v in res.violations.items()]
     if 'loaded' in case:
         tag, order, present = case['loaded']
         run_loaded(tag, order, present, 0, res)
